@@ -31,6 +31,7 @@ type Obligation struct {
 	Model   map[string]string
 	Raw     string
 	SMTHash string
+	Closed  bool // decided by closed evaluation (no solver): Raw holds the reason
 }
 
 type ObjMeta struct {
@@ -66,6 +67,7 @@ type State struct {
 	PathID   int
 	Lock     map[int]int // obj id of mutex -> 0 free, 1 rlock, 2 wlock
 	Ghost    map[string]Val
+	InMapRange bool // an iteration over a map has started on this path (element order of lists built since is arbitrary)
 }
 
 type WriteRec struct {
@@ -94,7 +96,7 @@ func (w *WriteRec) note(obj int, path []PathElem) {
 }
 
 func (s *State) clone() *State {
-	n := &State{PC: s.PC[:len(s.PC):len(s.PC)], Heap: make(map[int]Val, len(s.Heap)), Meta: s.Meta, Maps: make(map[int]*MapState, len(s.Maps)), Record: s.Record, Alloc: s.Alloc}
+	n := &State{PC: s.PC[:len(s.PC):len(s.PC)], Heap: make(map[int]Val, len(s.Heap)), Meta: s.Meta, Maps: make(map[int]*MapState, len(s.Maps)), Record: s.Record, Alloc: s.Alloc, InMapRange: s.InMapRange}
 	for k, v := range s.Heap {
 		n.Heap[k] = v
 	}
@@ -201,6 +203,9 @@ type Exec struct {
 	GlobalInit func(e *Exec, st *State, g *ssa.Global) (Val, bool)
 	preState   *State
 	forcedInt  bool
+	mergedJoin *ssa.BasicBlock
+	mergedIdx  int
+	Merges     int
 	inits      map[*ssa.Package]*initResult
 	initRunning *ssa.Package
 	rootEnv    *SpecEnv
